@@ -3,7 +3,7 @@
    schedule of: a creator thread (five construction modes, among them late initialisation through get_promise() on a
    default-constructed handle or on a copy of an init_if_needed() handle), one resolver (value / exception / drop) and
    any number of user threads that copy, poll, co_await, sync(), subscribe a callback awaiter and drop handles. *)
-From Cocls Require Import Base BaseProofs SharedDefs SharedProofs SharedProofs2 SharedProofs3.
+From Cocls Require Import Base BaseProofs SharedDefs SharedProofs SharedProofs2 SharedProofs3 SharedProofs4.
 Local Open Scope nat_scope.
 
 (* the state is never destroyed while the future is pending, even when every handle has been dropped *)
@@ -85,6 +85,19 @@ Theorem c17_runs_are_reachable : forall ops, reachable ops (fst (final_state ops
 Proof. exact final_state_reachable. Qed.
 Print Assumptions c17_runs_are_reachable.
 
+(* the decidable property that is evaluated on the implementation's traces accepts the model's own run whenever the
+   runner stops because nothing is enabled (i.e. not by running out of fuel), for every value-type variant *)
+Theorem c17_oracle_accepts_model_run : forall isvoid ops,
+  all_enabled (fst (final_state ops)) = [] -> sf_oracle isvoid ops (sf_run isvoid ops) = true.
+Proof. exact oracle_accepts_terminal. Qed.
+Print Assumptions c17_oracle_accepts_model_run.
+
+(* mode, resolver kind and the declared kind of every user never change *)
+Theorem c17_declarations_constant : forall ops s, reachable ops s ->
+  mode s = mode_of ops /\ rk s = res_of ops /\ kinds s = map ukd (flat_map decode_user ops).
+Proof. exact decl_const. Qed.
+Print Assumptions c17_declarations_constant.
+
 (* non-vacuity: late initialisation through a copy (init_if_needed, copy, get_promise on the copy), every handle of two
    awaiters and a dropper; the schedule lets the users subscribe and the creator drop before the resolver runs *)
 Example c17_nonvacuous :
@@ -93,3 +106,10 @@ Example c17_nonvacuous :
   all_enabled s = [] /\ freed s = 1 /\ pdtor s = 1 /\ uaf s = 0 /\
   map useen (users s) = [Some (OVal 42); Some (OVal 42); None] /\ map uruns (users s) = [1; 1; 0].
 Proof. vm_compute. repeat split. Qed.
+
+(* non-vacuity of the oracle theorem: construction from an async coroutine, copy-assignment / move-assignment /
+   self-assignment onto live handles; the runner stops with nothing enabled *)
+Example c17_nonvacuous_oracle :
+  let ops := [[0;5;0]; [1;0;7]; [2;2;2]; [2;3;4]; [2;4;3]; [2;1;1]; [9; 3;1;4;1;5;9;2;6;5;3;5;8;9;7;9;3;2;3;8;4;6]]%Z in
+  all_enabled (fst (final_state ops)) = [] /\ sf_oracle false ops (sf_run false ops) = true.
+Proof. vm_compute. split; reflexivity. Qed.
